@@ -111,6 +111,15 @@ def run_bounded(b, repo, tier, seed):
                 'wall_s': time.time() - t0}
     if 'failures' not in d:      # adapters written for replay report a single failing input
         d['failures'] = [d['failing_input']] if d.get('failing_input') else []
+    # a time-out of the harness itself (a child process that did not finish in its budget, e.g. on an overloaded machine) or a lack of
+    # resources is an error of the run (exit 3), never a failing input
+    infra = [f for f in d['failures'] if isinstance(f, dict) and any(t in str(f.get('exception', '')) for t in
+                                                                      ('TimeoutExpired', 'MemoryError', 'No space left', 'Resource temporarily unavailable'))]
+    if infra:
+        d['failures'] = [f for f in d['failures'] if f not in infra]
+        if d.get('failing_input') in infra:
+            d['failing_input'] = d['failures'][0] if d['failures'] else None
+        d['error'] = 'harness resource problem: %s' % str(infra[0].get('exception'))[:200]
     d['name'] = b.name
     d['bound'] = b.bound
     d['clause'] = b.clause
